@@ -66,6 +66,9 @@ pub struct LoopCase {
     pub panic: Option<PanicPoint>,
     /// Allocation script index per site.
     pub alloc: [usize; 5],
+    /// Allocation scripts only run while the thread's round index is below this.
+    #[serde(default)]
+    pub alloc_until_round: Option<u64>,
     /// Clock ticks consumed per execution of each site, indexed by the thread's
     /// round (last entry repeats).
     pub cost: [Vec<u64>; 5],
@@ -98,6 +101,7 @@ impl LoopCase {
             counter_after_input: false,
             panic: None,
             alloc: [0; 5],
+            alloc_until_round: None,
             cost: [vec![0], vec![0], vec![1000], vec![0], vec![0]],
             thread_skew: 0,
             read_cost: 0,
@@ -304,7 +308,8 @@ impl Sites {
             n
         };
         // Allocation script, thread-distinct sizes.
-        for &op in ALLOC_SCRIPTS[self.case.alloc[site]] {
+        let scripts_on = self.case.alloc_until_round.map_or(true, |r| clock::round_of_current_thread() < r);
+        for &op in ALLOC_SCRIPTS[if scripts_on { self.case.alloc[site] } else { 0 }] {
             let bump = thread as u64 * 4096;
             let op = match op {
                 Op::Alloc(z) => Op::Alloc(z + bump),
@@ -353,7 +358,7 @@ impl Sites {
         // zero-cost function under a frozen clock) is cut and reported as
         // excluded, never as a verdict.
         if self.calls.fetch_add(1, SeqCst) > 64 * self.case.horizon {
-            panic!("{}", clock::HORIZON_PANIC);
+            clock::raise_horizon();
         }
         log::event(Kind::Call, id, 0);
         self.visit(SITE_CALL);
@@ -480,6 +485,8 @@ impl Drop for OutSd {
 // ---------------------------------------------------------------------------
 
 pub struct LoopOutcome {
+    /// The run was cut because its clock-read / call budget was exhausted.
+    pub horizon: bool,
     pub events: Vec<Event>,
     pub report: Option<RunReport>,
     pub panic: Option<String>,
@@ -636,6 +643,7 @@ pub fn run_case(case: &LoopCase) -> LoopOutcome {
 
     let end_time = clock::now();
     let reads = clock::reads();
+    let horizon = clock::horizon_hit();
     log::stop();
     clock::disable();
     let events = log::take();
@@ -652,7 +660,7 @@ pub fn run_case(case: &LoopCase) -> LoopOutcome {
             }),
         ),
     };
-    LoopOutcome { events, report, panic, end_time, reads }
+    LoopOutcome { horizon, events, report, panic, end_time, reads }
 }
 
 // ---------------------------------------------------------------------------
